@@ -55,6 +55,9 @@ func (e *Engine) encodeFunction(fn *ssa.Function) *FuncResult {
 		}
 		return x
 	}
+	if fc != nil && len(fc.clauses("callpre")) > 0 {
+		st.h[c.cellVar("CB_called", tyBool)] = False
+	}
 	// objects named by "modifies ... at e" (evaluated in the entry state)
 	c.topAtRefs = map[string][]Term{}
 	if fc != nil {
@@ -114,7 +117,21 @@ func (e *Engine) encodeFunction(fn *ssa.Function) *FuncResult {
 	if fc != nil {
 		for _, cl := range fc.clauses("ensures") {
 			if g, ok := mk(stRet).evalBool(cl.Expr); ok {
-				c.oblige(fmt.Sprintf("%s/ensures[%s]", key, cl.Label), "ensures", atRet, g, cl.Text)
+				name := fmt.Sprintf("%s/ensures[%s]", key, cl.Label)
+				c.oblige(name, "ensures", atRet, g, cl.Text)
+				// residual query of a recorded finding: the clause must hold outside the recorded shape
+				for _, f := range e.findings {
+					if f.Kind == "finding" && f.Obligation == name && f.Shape != "" {
+						sx, err := parseExpr(f.Shape)
+						if err != nil {
+							c.errorf("known finding %s: bad shape: %v", name, err)
+							continue
+						}
+						if sh, ok := mk(stRet).evalBool(sx); ok {
+							c.oblige(name+"~residual", "residual", atRet, Or(sh, g), "outside the recorded shape ("+f.Shape+"): "+cl.Text)
+						}
+					}
+				}
 			}
 		}
 	}
